@@ -1070,6 +1070,15 @@ func c14CLI(c *core.Case, o *core.Outcome) {
 		{"chart", "ramp", "--start-rate", "1/s", "--end-rate", "10/s", "--ramp-duration", "0s"},
 		{"chart"}, {"run"}, {"run", "users"}, {"chart", "nothing"}, {},
 	}
+	// charts of every trigger over no time at all, or less
+	for _, tr := range []string{"constant", "staged", "ramp", "gaussian", "users"} {
+		for _, cd := range []string{"0s", "-1s"} {
+			if cd == "-1s" && tr != "constant" && tr != "gaussian" {
+				continue
+			}
+			fixed = append(fixed, []string{"chart", tr, "--chart-duration", cd})
+		}
+	}
 	// every trigger with otherwise valid flags and no worker at all
 	for _, cv := range []string{"0", "-1"} {
 		for _, tf := range [][]string{{"constant", "-r", "5/10ms"}, {"staged", "-s", "0s:1,10s:1"}, {"ramp", "-s", "1/10ms", "-e", "9/10ms", "-r", "100ms"},
